@@ -143,7 +143,7 @@ def pshape(t):
 
 def playout(t, fixed):
     """the Linear order data_layout claims (None: not Linear / not constructed); fixed=False is
-    today's TensorTranspose::data_layout, fixed=True the demanded one (KNOWN DEFECT D1)"""
+    TensorTranspose::data_layout before fix 6660492 (finding F13), fixed=True the code now"""
     tag = t[0]
     if pshape(t) is None:
         return None
@@ -169,10 +169,10 @@ def playout(t, fixed):
     raise ValueError(t)
 
 
-def known_defect(t):
-    """KNOWN DEFECT D1 (notes/C02.md): TensorTranspose over a source whose memory order is not its
-    shape order claims a wrong Linear order.  Exactly the cases where the claimed order differs
-    from the demanded one are excluded."""
+def f13_class(t):
+    """the input class of finding F13 (fixed in /repo by 6660492, see notes/C02.md): a
+    TensorTranspose over a source whose memory order is not its shape order.  No longer excluded;
+    `distribution` reports how many generated cases are in the class (they catch a revert)."""
     return playout(t, False) != playout(t, True)
 
 
@@ -267,8 +267,6 @@ def case(t, rng, full=True):
     if not well_typed(t):
         return None
     t = renumber(t, [0])
-    if known_defect(t):   # KNOWN DEFECT D1: excluded until /repo is repaired (see notes/C02.md)
-        return None
     sh = pshape(t)
     if sh is None:
         d = pdims(t)
@@ -638,6 +636,33 @@ def gen(tier, rng):
         c = case(t, rng, full=(k % 4 == 0))
         if c:
             yield c
+    # 5. layout-preserving chains (access / transpose / rename / wrappers over leaves and matrices):
+    #    data_layout stays Linear, from_memory_order must walk the storage contiguously (class F13)
+    lbases = [leaf(1, [2, 2, 2]), leaf(1, [2, 1, 3]), leaf(1, [2, 3]), [12, 1, 2, 3, 0, 1], [12, 1, 3, 2, 1, 0],
+              leaf(1, [2, 2, 1, 2], [3, 1, 0, 2])]
+    for base in lbases:
+        level = [base]
+        for depth in range(1, 4):
+            nxt = []
+            for t in level:
+                names = [n for n, _ in pshape(t)]
+                perms = list(itertools.permutations(names))
+                if len(perms) > 6:
+                    perms = rng.sample(perms, 6)
+                for p in perms:
+                    nxt.append([7, t, list(p)])
+                    nxt.append([8, t, list(p)])
+                nxt.append([5, t, names[1:] + names[:1]])
+                nxt.append([5, t, [n + 3 for n in names]])
+                nxt.append([11, t, rng.randrange(3)])
+            cap = 250 if quick else 2500
+            if len(nxt) > cap:
+                nxt = rng.sample(nxt, cap)
+            for t in nxt:
+                c = case(t, rng, full=False)
+                if c:
+                    yield c
+            level = nxt
     # 4. higher dimensionalities: D = 4..6 leaves with every adaptor kind (sampled parameters)
     for D in (4, 5, 6):
         for _ in range(6 if quick else 40):
@@ -686,4 +711,14 @@ def distribution(lines):
                 if d == 0:
                     break
         depth_hist[depth] = depth_hist.get(depth, 0) + 1
-    return {"outermost_adaptor_tag": dict(sorted(kinds.items())), "paren_depth_of_term": dict(sorted(depth_hist.items()))}
+    from tools.vlib import parse_sx
+    f13 = 0
+    for ln in lines:
+        if "(8 (" in ln:
+            try:
+                if f13_class(parse_sx(ln)[2]):
+                    f13 += 1
+            except Exception:
+                pass
+    return {"outermost_adaptor_tag": dict(sorted(kinds.items())), "paren_depth_of_term": dict(sorted(depth_hist.items())),
+            "cases_in_class_F13_transpose_over_non_memory_order_source": f13}
